@@ -26,6 +26,17 @@ import (
 	dnsmessage "github.com/miekg/dns"
 )
 
+// presentation form of a name after one trip over the wire (`@` comes back as `\@`)
+func c07WireName(n string) string {
+	m := new(dnsmessage.Msg)
+	m.SetQuestion(n, dnsmessage.TypeA)
+	var w dnsmessage.Msg
+	if b, err := m.Pack(); err != nil || w.Unpack(b) != nil || len(w.Question) != 1 {
+		return "unpackable:" + n
+	}
+	return w.Question[0].Name
+}
+
 type c07DaeAsked struct {
 	up    string
 	name  string
@@ -133,7 +144,7 @@ func TestVerifC07Daedns(t *testing.T) {
 						bad = " asked-twice"
 					}
 					res[a.qtype] = a.up
-					if a.name != dnsmessage.CanonicalName(host) {
+					if c07WireName(a.name) != c07WireName(dnsmessage.CanonicalName(host)) {
 						bad += " other-question:" + a.name
 					}
 				}
